@@ -109,6 +109,18 @@ def rule_flatten(prog: Program, rep: Report, R: str):
             compare(rep, R, method_site(prog, c, "__getitem__"), "Chain.__getitem__", got, want, "__getitem__")
     else:
         compare(rep, R, method_site(prog, c, "__getitem__"), "Chain.__getitem__", got, want, "__getitem__")
+        # ... and refuses exactly the index types the reference refuses (a slice that raises is not "order preserved")
+        from .c13 import same_raise_set
+        gi, wi = Interp(prog), Interp(prog)
+        gi.eval_method(c, "__getitem__", [I])
+        from ..refs import prelude
+        from ..terms import Env
+        wi.apply_def(ast.parse(ref).body[0], Env(prelude(prog)), (c.module, c, SELF), [SELF, I], {})
+        srs = same_raise_set(gi, wi)
+        if srs is False:
+            rep.violated(R, method_site(prog, c, "__getitem__"), "Chain.__getitem__:accepted-indices",
+                         "__getitem__ raises for a different set of index types than `int -> member, slice -> Chain of the "
+                         "slice, anything else -> TypeError`")
     got = Interp(prog).eval_method(c, "__len__", [])
     compare(rep, R, method_site(prog, c, "__len__"), "Chain.__len__", got,
             ("call", ("ext", "builtins.len"), (("attr", SELF, "bijections"),), ()), "__len__")
